@@ -243,7 +243,9 @@ pub fn run_frag_lockstep(runs: &[(&FCfg, &[FOp])], schedule: &[u8]) -> Vec<FRun>
     for (k, (_, ops)) in runs.iter().enumerate() {
         order.extend(std::iter::repeat(k).take(ops.len()));
     }
-    for k in order {
+    // the muxer values change places in memory now and then (moved between calls like any other value)
+    let mut slot: Vec<usize> = (0..runs.len()).collect();
+    for (step, k) in order.into_iter().enumerate() {
         let ops = runs[k].1;
         let i = out[k].results.len();
         if i >= ops.len() || !out[k].built {
@@ -253,7 +255,14 @@ pub fn run_frag_lockstep(runs: &[(&FCfg, &[FOp])], schedule: &[u8]) -> Vec<FRun>
             out[k].results.push(FRes::Skipped);
             continue;
         }
-        let r = frag_step(muxers[k].as_mut().unwrap(), &ops[i]);
+        if step % 5 == 3 && runs.len() >= 2 {
+            let other = (k + 1 + step / 5) % runs.len();
+            if other != k {
+                muxers.swap(slot[k], slot[other]);
+                slot.swap(k, other);
+            }
+        }
+        let r = frag_step(muxers[slot[k]].as_mut().unwrap(), &ops[i]);
         if let FRes::Panic(p) = &r {
             out[k].panic = Some(p.clone());
         }
